@@ -37,6 +37,7 @@ import (
 	"os"
 	"os/exec"
 	"path/filepath"
+	"runtime"
 	"sort"
 	"strconv"
 	"strings"
@@ -128,6 +129,9 @@ func childMain() {
 		wd = time.AfterFunc(lim, func() {
 			fmt.Printf("HANG %d\n", idx)
 			w.Flush()
+			// where is it stuck: all goroutine stacks, for the parent
+			buf := make([]byte, 1<<20)
+			os.Stderr.Write(buf[:runtime.Stack(buf, true)])
 			os.Exit(3)
 		})
 		res := r.run(c)
@@ -173,6 +177,7 @@ type parent struct {
 	fails    []failure
 	children int
 	narrowed int
+	skipped  int
 	seq      int
 }
 
@@ -235,9 +240,9 @@ func (p *parent) spawn(j job, id int) (rs []*result, lastStarted int, rc int, ha
 		os.Remove(resFile)
 	}
 	tail = se.String()
-	if len(tail) > 4000 {
+	if len(tail) > 6500 {
 		// the head names the fatal error, the tail the goroutine
-		tail = tail[:2500] + "\n…\n" + tail[len(tail)-1200:]
+		tail = tail[:5000] + "\n…\n" + tail[len(tail)-1200:]
 	}
 	return
 }
@@ -249,10 +254,26 @@ func (p *parent) nextID() int {
 	return p.seq
 }
 
+// maxFails bounds the search after failures were found: every hang costs a
+// full wall-clock limit, so the run stops exploring once it has this many.
+const maxFails = 6
+
+func (p *parent) enough() bool {
+	p.mu.Lock()
+	defer p.mu.Unlock()
+	return len(p.fails) >= maxFails
+}
+
 // runRange runs [lo,hi) of a stream, narrowing down to single failing inputs
 // when a child dies.
 func (p *parent) runRange(j job, slot int) {
 	for j.lo < j.hi {
+		if p.enough() {
+			p.mu.Lock()
+			p.skipped += j.hi - j.lo
+			p.mu.Unlock()
+			return
+		}
 		rs, last, rc, hang, tail := p.spawn(j, slot)
 		if rc == 0 && !hang {
 			p.keep(j.stream, rs)
@@ -270,33 +291,39 @@ func (p *parent) runRange(j job, slot int) {
 			p.addFail(j.stream, j.lo, "crash", "the child process failed before starting a case (rc "+strconv.Itoa(rc)+")", tail)
 			return
 		}
-		// confirm on the single input
 		p.mu.Lock()
 		p.narrowed++
 		p.mu.Unlock()
 		culprit := last
-		_, _, rc1, hang1, tail1 := p.spawn(job{j.stream, last, last + 1}, slot)
-		if rc1 == 0 && !hang1 {
-			// not reproducible alone: bisect [lo, last+1) for the smallest failing range
-			lo, hi := j.lo, last+1
-			for hi-lo > 1 {
-				mid := (lo + hi) / 2
-				_, _, rcm, hm, _ := p.spawn(job{j.stream, mid, hi}, slot)
-				if rcm != 0 || hm {
-					lo = mid
-				} else {
-					hi = mid
+		kind := "crash"
+		if hang {
+			// the child's watchdog names the case that exceeded the limit
+			kind = "hang"
+		} else {
+			// confirm on the single input
+			_, _, rc1, hang1, tail1 := p.spawn(job{j.stream, last, last + 1}, slot)
+			if rc1 == 0 && !hang1 {
+				// not reproducible alone: bisect [lo, last+1) for the smallest failing suffix
+				lo, hi := j.lo, last+1
+				for hi-lo > 1 {
+					mid := (lo + hi) / 2
+					_, _, rcm, hm, _ := p.spawn(job{j.stream, mid, hi}, slot)
+					if rcm != 0 || hm {
+						lo = mid
+					} else {
+						hi = mid
+					}
+				}
+				culprit = lo
+				tail += "\n[not reproducible on the single input; the failing suffix of the batch starts at this index]"
+			} else {
+				tail = tail1
+				if hang1 {
+					kind = "hang"
 				}
 			}
-			culprit = lo
-			tail1 = tail + "\n[not reproducible on the single input; failing suffix starts at this index]"
-			hang1 = hang
 		}
-		kind := "crash"
-		if hang1 {
-			kind = "hang"
-		}
-		p.addFail(j.stream, culprit, kind, fmt.Sprintf("child exit status %d", rc), tail1)
+		p.addFail(j.stream, culprit, kind, fmt.Sprintf("child exit status %d", rc), tail)
 		j.lo = last + 1
 	}
 }
@@ -331,7 +358,7 @@ func (p *parent) mkFail(stream string, idx int, what, key, detail string) failur
 func (p *parent) addFail(stream string, idx int, kind, what, tail string) {
 	key := kind + ":" + crashKey(tail)
 	if kind == "hang" {
-		key = "hang:" + stream
+		key = "hang:" + topFrame(tail)
 	}
 	f := p.mkFail(stream, idx, fmt.Sprintf("%s of the linting process on a %s input (%s)", kind, stream, what), key, tail)
 	p.mu.Lock()
@@ -488,6 +515,7 @@ func parentMain() {
 	}
 	sum.Extra["children"] = p.children
 	sum.Extra["narrowed_failures"] = p.narrowed
+	sum.Extra["cases_not_run_after_failure_budget"] = p.skipped
 	sum.Extra["slow_cases_over_2s"] = slow
 	sum.Extra["slowest_case_ms"] = slowest
 	sum.Extra["slow_cases"] = slowDesc
